@@ -490,7 +490,8 @@ pub fn gen_c15(out: &mut dyn Write, thorough: bool, seed: u64) {
             pre.push_str(&format!(",reset:{k}"));
             for i in 0..n * k {
                 if r.chance(1, 3) {
-                    pre.push_str(&format!(",sett:{}:{}", i, hexs(["x", "名詞", "y z"][r.below(3)])));
+                    // incl. a present-but-EMPTY tag (distinct from an absent one; reachable through tags_mut)
+                    pre.push_str(&format!(",sett:{}:{}", i, hexs(["x", "名詞", "y z", ""][r.below(4)])));
                 }
             }
         }
